@@ -222,41 +222,46 @@ def _mem_design(seed):
         cds[dn] = ClockDomain(dn, reset_less=rng.random() < 0.4, async_reset=rng.random() < 0.4,
                               clk_edge=rng.choice(["pos", "pos", "neg"]))
         setattr(top.domains, dn, cds[dn])
-    W = rng.choice([1, 2, 4, 6])
-    abits = rng.choice([0, 1, 2, 3])
-    depth = 1 << abits
-    shape = signed(W) if rng.random() < 0.3 else unsigned(W)
-    lo, hi = (-(1 << (W - 1)), (1 << (W - 1)) - 1) if shape.signed else (0, (1 << W) - 1)
-    mem = Memory(shape=shape, depth=depth, init=[rng.randint(lo, hi) for _ in range(rng.randint(0, depth))])
-    top.submodules.mem = mem
     ins, outs = {}, {}
-    wports = []
-    wdoms = rng.choice([["A"], ["B"], ["A", "B"]])
-    for k, dn in enumerate(wdoms):
-        gran = None if shape.signed else rng.choice([None, 1] + ([W // 2] if W % 2 == 0 and W > 1 else []))
-        wp = mem.write_port(domain=dn, granularity=gran)
-        wa = Signal(abits, name="wa%d" % k)
-        wd = Signal(W, name="wd%d" % k)
-        we = Signal(len(wp.en), name="we%d" % k)
-        top.d.comb += [wp.addr.eq(wa), wp.data.eq(wd), wp.en.eq(we)]
-        ins.update({wa.name: wa, wd.name: wd, we.name: we})
-        wports.append((dn, wp))
-    for k in range(rng.randint(1, 2)):
-        dn = rng.choice(["comb", "A", "B"])
-        ra = Signal(abits, name="ra%d" % k)
-        ins[ra.name] = ra
-        if dn == "comb":
-            rp = mem.read_port(domain="comb")
-        else:
-            same = [wp for d2, wp in wports if d2 == dn]
-            rp = mem.read_port(domain=dn, transparent_for=[wp for wp in same if rng.random() < 0.6])
-            re_ = Signal(name="re%d" % k)
-            top.d.comb += rp.en.eq(re_)
-            ins[re_.name] = re_
-        top.d.comb += rp.addr.eq(ra)
-        o = Signal(shape, name="rd%d" % k)
-        top.d.comb += o.eq(rp.data)
-        outs[o.name] = o
+
+    def add_memory(pfx):
+        # (several memories may sit side by side in one module: their ports are numbered per memory in the RTLIL)
+        W = rng.choice([1, 2, 4, 6])
+        abits = rng.choice([0, 1, 2, 3])
+        depth = 1 << abits
+        shape = signed(W) if rng.random() < 0.3 else unsigned(W)
+        lo, hi = (-(1 << (W - 1)), (1 << (W - 1)) - 1) if shape.signed else (0, (1 << W) - 1)
+        mem = Memory(shape=shape, depth=depth, init=[rng.randint(lo, hi) for _ in range(rng.randint(0, depth))])
+        top.submodules["mem%s" % pfx] = mem
+        wports = []
+        wdoms = rng.choice([["A"], ["B"], ["A", "B"]])
+        for k, dn in enumerate(wdoms):
+            gran = None if shape.signed else rng.choice([None, 1] + ([W // 2] if W % 2 == 0 and W > 1 else []))
+            wp = mem.write_port(domain=dn, granularity=gran)
+            wa = Signal(abits, name="wa%d" % k + pfx)
+            wd = Signal(W, name="wd%d" % k + pfx)
+            we = Signal(len(wp.en), name="we%d" % k + pfx)
+            top.d.comb += [wp.addr.eq(wa), wp.data.eq(wd), wp.en.eq(we)]
+            ins.update({wa.name: wa, wd.name: wd, we.name: we})
+            wports.append((dn, wp))
+        for k in range(rng.randint(1, 2)):
+            dn = rng.choice(["comb", "A", "B"])
+            ra = Signal(abits, name="ra%d" % k + pfx)
+            ins[ra.name] = ra
+            if dn == "comb":
+                rp = mem.read_port(domain="comb")
+            else:
+                same = [wp for d2, wp in wports if d2 == dn]
+                rp = mem.read_port(domain=dn, transparent_for=[wp for wp in same if rng.random() < 0.6])
+                re_ = Signal(name="re%d" % k + pfx)
+                top.d.comb += rp.en.eq(re_)
+                ins[re_.name] = re_
+            top.d.comb += rp.addr.eq(ra)
+            o = Signal(shape, name="rd%d" % k + pfx)
+            top.d.comb += o.eq(rp.data)
+            outs[o.name] = o
+    for mi in range(rng.choice([1, 1, 2, 3])):
+        add_memory("" if mi == 0 else "_%d" % mi)
     # keep both domains alive
     ka, kb = Signal(name="ka"), Signal(name="kb")
     top.d.A += ka.eq(~ka)
